@@ -98,6 +98,15 @@ def generated_jobs(pid, tier, seed):
                                               "SingleIndependentActiveSequentialDirectionEndOfChainEventHandler.chain_time=1.3"]))
     out.append(dict(name="gen_hd_dipoles_cells_4", config="config_files/hard_disk_dipoles/hard_disk_dipoles_cells.ini",
                     seed=seed + 20, legs=legs * 2, sets=HD + ["RandomInputHandler.number_of_root_nodes=4"]))
+    if pid in ("C06", "C08", "C09"):
+        # the heap scheduler's deletion counters wrap around 2^32 during the recorded legs (state after ~2^32 trashes)
+        out.append(dict(name="gen_atoms_counter_wrap", config=P + "coulomb_atoms/power_bounded.ini", seed=seed + 31, legs=legs * 2,
+                        sets=["RandomInputHandler.number_of_root_nodes=6", "Coulomb.number_event_handlers=6",
+                              "FinalTimeEndOfRunEventHandler.end_of_run_time=40"], extra=["--preset-counters", "23"]))
+        out.append(dict(name="gen_cellveto_counter_wrap", config=P + "coulomb_atoms/cell_veto.ini", seed=seed + 32, legs=legs * 2,
+                        sets=["RandomInputHandler.number_of_root_nodes=12", "FinalTimeEndOfRunEventHandler.end_of_run_time=40",
+                              "CoulombNearby.number_event_handlers=12", "CoulombSurplus.number_event_handlers=12"],
+                        extra=["--preset-counters", "23"]))
     if pid == "C17":
         # runs that reach their configured end, so that the count / end-time clauses are evaluated
         for n, (cfg, end, interval) in enumerate(((P + "dipoles/dipole_motion.ini", "7.3", "0.21"),
